@@ -44,6 +44,8 @@ def assemble_contract(program, status, outcome, mapping):
     check("status_propagated", r == status and outcome != 7)
     em = ghost_get("emitter_seen")
     check("sfc_writer_on_output_file", isinstance(em, SFCWriter) and em.file is ghost_get("opened:out.sfc"))
+    # the image is the blocks applied to an EMPTY image: the output file is created / truncated, never opened for update
+    check("output_image_starts_empty", ghost_get("open_mode:out.sfc") == "wb")
     if mapping is not None:
         check("mapping_applied", program.resolver.rom_type == mapping_rom_type(mapping))
 
@@ -62,6 +64,7 @@ def assemble_as_patch_contract(program, status, outcome, mapping, copier):
     em = ghost_get("emitter_seen")
     f = ghost_get("opened:out.ips")
     check("ips_writer_on_output_file", isinstance(em, IPSWriter) and em.file is f and em._copier_header is copier)
+    check("output_patch_starts_empty", ghost_get("open_mode:out.ips") == "wb")
     check("patch_framing", flat(f.written) == b"PATCHEOF")
     if mapping == "low":
         check("mapping_applied", program.resolver.rom_type == RomType.low_rom)
